@@ -122,6 +122,7 @@ let check_memos hfn (m : machines) : bool =
   List.iter (fun (a, _) -> walk a seen) m.snaps;
   !ok
 
+let no_spec = ref false
 let run_hist hfn zh (tys : string) (vals : string) (route : string) (ops : string) : string =
   let t = ty_of_sexp (parse_sexp tys) in
   let v0 = if route = "default" then default_val t else val_of_sexp (parse_sexp vals) in
@@ -135,7 +136,9 @@ let run_hist hfn zh (tys : string) (vals : string) (route : string) (ops : strin
     snaps = [] } in
   let ops = match parse_sexp ops with L l -> l | _ -> failwith "ops must be a list" in
   let out = Buffer.create 256 in
-  let add k v = Buffer.add_string out (Printf.sprintf "%s=%s " k v) in
+  let add k v =
+    if !no_spec && String.length k > 5 && String.sub k 0 5 = "spec_" then ()
+    else Buffer.add_string out (Printf.sprintf "%s=%s " k v) in
   let push_root t n v =
     let (a, hp) = hm_alloc m.hm.m_store n in
     m.hm <- { m_store = hp; m_handles = m.hm.m_handles @ [ { h_ty = t; h_back = a; h_hook = None } ] };
